@@ -4,6 +4,8 @@ SPECIFICATION Spec
 CONSTANTS
   MergeTag = 2
   Reps = {1, 2, 3}
+  Authors = {1, 2, 3}
+  Receivers = {1, 2, 3}
   Txns = {1, 2}
   MaxCmds = 8
   MaxSteps = 16
